@@ -157,19 +157,4 @@ def NodeOK (evs : List Ev) (t : Tree) : Prop :=
   (∀ k ∈ t.kids, parentOf evs k.id = some t.id ∧ t.off ≤ k.off ∧ k.endo ≤ t.endo) ∧
   t.kids.Pairwise SibOrder
 
-/-- `O(n²)` verdict used by the driver: `none` = well nested, else the first offending pair / event -/
-def nestVerdict (n : Nat) (evs : List Ev) : String :=
-  match evs.find? (fun e => !(decide (e.off ≤ e.endo ∧ e.endo ≤ n))) with
-  | some e => s!"bounds {e.off}:{e.endo}"
-  | none =>
-    let rec go : List Ev → Option (Ev × Ev)
-      | [] => none
-      | p :: rest =>
-        match rest.find? (fun f => !(decide (Compat p f))) with
-        | some f => some (p, f)
-        | none => go rest
-    match go evs with
-    | some (p, f) => s!"pair {p.off}:{p.endo} {f.off}:{f.endo}"
-    | none => "nested"
-
 end TmVerif.TreeBuilder
